@@ -346,6 +346,25 @@ def _straddle(rnd, cur, chunk, buffered, usizes):
     return [('read', n), ('ru', d, rnd.choice([-1, -1, None, 0, 1, 2, s_left, s_left + 1, 100] if rnd.random() < 0.7 else usizes), rnd.choice([0, 0, 1]))]
 
 
+class _Sessions:
+    """One correspondence fed in batches: the lines of a few thousand cases are piped to the driver and compared, then dropped
+    (the big cases carry 8 KB hex lines and long `asked` lists; a thorough shard would otherwise hold hundreds of MB)."""
+
+    def __init__(self, ctx, name, driver, every=2500):
+        self.ctx, self.name, self.driver, self.every = ctx, name, driver, every
+        self.cur = ctx.session(name, driver)
+
+    def next(self):
+        """the session for the next case"""
+        if len(self.cur.case_start) >= self.every:
+            self.cur.finish()
+            self.cur = self.ctx.session(self.name, self.driver)
+        return self.cur
+
+    def finish(self):
+        self.cur.finish()
+
+
 def _ncases(ctx, quick, thorough):
     """Random cases for this shard. When the runner is searching for a failing input (after a broken proof / correspondence) it
     re-runs with tier=thorough at 10x (from quick) or 3x (from thorough) scale; twenty times the quick volume, under a new seed, is
@@ -559,7 +578,7 @@ def _sync_plan(rnd, big):
     return {'data': data, 'chunk': chunk, 'maxlen': maxlen, 'shorts': shorts, 'src_mode': mode, 'big': big}
 
 
-def _sync_chooser(rnd, plan, wild):
+def _sync_chooser(rnd, plan, wild, nest=True):
     big = plan['big']
     sizes = [None, -1, 0, 1, 2, 3, 5, 9, 100] + ([64, 128, 1000, 5000] if big else [])
     usizes = [-1, -1, None, 0, 1, 2, 3, 4, 8, 16, 100] + ([64, 128, 640, 1000, 5000] if big else [])
@@ -594,7 +613,7 @@ def _sync_chooser(rnd, plan, wild):
             state['n'] += 1
             return ('pop',)
         x = rnd.random()
-        if depth < 2 and x < 0.2:
+        if nest and depth < 2 and x < 0.2:
             state['n'] += 1
             return ('delimit', _pick_delim(rnd, cur if spec_on else None, plan['chunk']))
         if depth > 0 and x < 0.2 + 0.12 * depth:
@@ -625,7 +644,7 @@ SYNC_ORACLE = ('sync reader: every operation (read/peek/read_until/pipe_until/pi
 def _sync(ctx, BR, DelimiterError):
     rnd = ctx.rng
     env = _SyncEnv(BR, DelimiterError)
-    sess = ctx.session('sync BufferedReader (root + nested delimited readers) = Rd model', 'rddriver')
+    sess = _Sessions(ctx, 'sync BufferedReader (root + nested delimited readers) = Rd model', 'rddriver')
 
     def record(plan, failed, hist, nontriv, tags, kind, key=None):
         case = None
@@ -640,13 +659,13 @@ def _sync(ctx, BR, DelimiterError):
             ctx.count('sync_' + t)
 
     # ---- random histories
-    for _ in range(_ncases(ctx, 9000, 160000)):
+    for _ in range(_ncases(ctx, 14000, 640000)):
         if env.hangs >= MAX_HANGS:
             ctx.notes.append(f'sync generation stopped after {env.hangs} calls that did not return'); break
         big = rnd.random() < 0.1
         plan = _sync_plan(rnd, big)
         wild = rnd.random() < 0.25
-        failed, hist, nontriv, tags = _run_sync(env, plan, _sync_chooser(rnd, plan, wild), sess)
+        failed, hist, nontriv, tags = _run_sync(env, plan, _sync_chooser(rnd, plan, wild), sess.next())
         record(plan, failed, hist, nontriv, tags, 'random')
         ctx.count('sync_len_' + ('big' if big else 'small'))
         ctx.count('sync_src_' + plan['src_mode'])
@@ -682,7 +701,7 @@ def _sync(ctx, BR, DelimiterError):
                     if env.hangs >= MAX_HANGS:
                         break
                     it = iter(h)
-                    failed, hist, nontriv, tags = _run_sync(env, plan, lambda *_a: next(it, None), sess if j % 40 == 0 else None)
+                    failed, hist, nontriv, tags = _run_sync(env, plan, lambda *_a: next(it, None), sess.next() if j % 40 == 0 else None)
                     record(plan, failed, hist, nontriv, tags, 'grid', ('sg', idx))
     sess.finish()
 
@@ -928,7 +947,7 @@ def _async(ctx, BR, DelimiterError):
     import asyncio
     rnd = ctx.rng
     env = (asyncio, _Alarm(), BR, DelimiterError)
-    sess = ctx.session('async BufferedReader (root reader) = ARd model', 'ardriver')
+    sess = _Sessions(ctx, 'async BufferedReader (root reader) = ARd model', 'ardriver')
     stuck = [0]
 
     def record(plan, res, kind, key=None):
@@ -946,12 +965,12 @@ def _async(ctx, BR, DelimiterError):
             stuck[0] += 1
 
     async def main():
-        for _ in range(_ncases(ctx, 7000, 120000)):
+        for _ in range(_ncases(ctx, 10000, 400000)):
             if stuck[0] >= MAX_HANGS:
                 ctx.notes.append('async generation stopped: calls did not return'); break
             big = rnd.random() < 0.1
             plan = _async_plan(rnd, big)
-            res = await _run_async(env, plan, _async_chooser(rnd, plan), sess)
+            res = await _run_async(env, plan, _async_chooser(rnd, plan), sess.next())
             record(plan, res, 'random')
             ctx.count('async_len_' + ('big' if big else 'small'))
             ctx.count('async_src_' + plan['src_mode'])
@@ -985,7 +1004,7 @@ def _async(ctx, BR, DelimiterError):
                         if stuck[0] >= MAX_HANGS:
                             break
                         it = iter(h)
-                        res = await _run_async(env, plan, lambda *_a: next(it, None), sess if j % 40 == 0 else None)
+                        res = await _run_async(env, plan, lambda *_a: next(it, None), sess.next() if j % 40 == 0 else None)
                         record(plan, res, 'grid', ('ag', idx))
     asyncio.run(main())
     sess.finish()
@@ -1006,9 +1025,12 @@ def _cy_observe(seed, n, truncated):
     for _ in range(n):
         plan = _sync_plan(rnd, rnd.random() < 0.05)
         L = len(plan['data'])
-        plan['maxlen'] = (L + rnd.choice([1, 3])) if truncated else min(plan['maxlen'], L)
+        if not truncated:
+            plan['maxlen'] = min(plan['maxlen'], L)       # batch 1: root reader only, body at least as long as declared
+        elif rnd.random() < 0.5:
+            plan['maxlen'] = L + rnd.choice([1, 3])       # batch 2: truncated bodies and nested readers (a delimited child is "truncated" whenever its window is shorter than its budget)
         print(json.dumps({'progress': done, 'diff': diff, 'first': first, 'current': {'data': plan['data'].hex(), 'chunk': plan['chunk'], 'maxlen': plan['maxlen']}}), flush=True)
-        failed, hist, _, _ = _run_sync(env, plan, _sync_chooser(rnd, plan, False), None)
+        failed, hist, _, _ = _run_sync(env, plan, _sync_chooser(rnd, plan, False, nest=truncated), None)
         done += 1
         if failed:
             diff += 1
@@ -1026,7 +1048,7 @@ def _cyutil_twin(ctx):
     import json, os, subprocess, sys
     here = os.path.dirname(os.path.dirname(os.path.abspath(__file__)))
     for truncated, n, tmo in ((False, 30000, 240), (True, 300, 8)):
-        label = 'cyutil_twin[' + ('truncated bodies' if truncated else 'complete bodies') + ']'
+        label = 'cyutil_twin[' + ('truncated bodies + nested readers' if truncated else 'root reader, complete bodies') + ']'
         code = (f'import sys; sys.path.insert(0, {here!r}); import srcload; import props.c14 as m; '
                 f'm._cy_observe({ctx.seed + 14}, {n}, {truncated})')
         env = dict(os.environ, FALCON_CYUTIL='1')
